@@ -22,6 +22,7 @@ MOD = v2patterns if ENGINE == "v2" else v1patterns
 
 BASE_ALPHA = "".join(chr(c) for c in range(32, 127) if not chr(c).isupper() and chr(c) not in "[]")
 ALPHA = "".join(c for c in BASE_ALPHA if c not in EXCLUDE)
+REGEX_SPECIAL = ".^$*+?{}[]\\|()"
 SPECIALS = ".*+?{}()-|\\"   # characters that need a backslash to be literal in a regex ('-' is harmless either way)
 
 
@@ -106,7 +107,13 @@ def single_char_literal(i: int) -> bool:
     except re.error:
         return False
     items = list(tree)
-    return len(items) == 1 and items[0][0] == re._constants.LITERAL and items[0][1] == ord(c)
+    if not (len(items) == 1 and items[0][0] == re._constants.LITERAL and items[0][1] == ord(c)):
+        return False
+    # literal in *every* context: a character that is special to the regex syntax anywhere must carry its backslash
+    # ('{' alone parses as a literal, but 'x{2}' is a quantifier), otherwise concatenating images could change the meaning
+    if c in REGEX_SPECIAL:
+        return src == "\\" + c
+    return src == c or src == "\\" + c
 
 
 def mid_anchor_literal(i: int) -> bool:
